@@ -181,7 +181,7 @@ static inline std::string default_value(const Civ &c, int kind, Rng &r)
 }
 
 /* output formats: random sequences over the specifier alphabet */
-static inline std::string rand_ofmt(Rng &r, int kind, bool zone)
+static inline std::string rand_ofmt(Rng &r, int kind, bool zone, bool time_fields_only = false)
 {
 	static const char *dspec[] = {"%F", "%Y", "%m", "%d", "%j", "%b", "%B", "%a", "%A", "%y", "%G", "%V", "%u", "%c", "%w", "%U", "%W", "%C",
 				      "%q", "%Q", "%h", "%D", "%g", "%Od", "%Om", "%dth", "%_d", "%-d", "%-m", "%rY", "%G-W%V-%u", "%Y-%m-%c-%w",
@@ -195,8 +195,8 @@ static inline std::string rand_ofmt(Rng &r, int kind, bool zone)
 		n = (size_t)r.range(12, 40);	/* long outputs into the shared buffer */
 	for (size_t i = 0; i < n; i++) {
 		unsigned k = (unsigned)r.below(100);
-		bool wantt = kind == K_TIME ? k < 80 : kind == K_DT ? k < 40 : k < 6;
-		if (k >= 94 && kind != K_TIME)
+		bool wantt = time_fields_only || (kind == K_TIME ? k < 80 : kind == K_DT ? k < 40 : k < 6);
+		if (k >= 94 && kind != K_TIME && !time_fields_only)
 			f += "%s";
 		else if (wantt)
 			f += tspec[r.below(nt)];
@@ -431,13 +431,8 @@ static inline Inv rand_inv(Rng &r, const GenOpt &go)
 		unsigned fk = (unsigned)r.below(100);
 		if (fk < 60) {
 			iv.fixed.push_back(r.chance(1, 2) ? "-f" : "--format");
-			std::string of = rand_ofmt(r, iv.kind, iv.zone);
-			/* epoch or zone output of a bare time borrows the date: only with --base */
-			if (timeonly && !iv.has_base && go.want_full) {
-				size_t q;
-				while ((q = of.find("%s")) != std::string::npos)
-					of.replace(q, 2, "%S");
-			}
+			/* date fields, epoch or zone output of a bare time borrow the date: only with --base */
+			std::string of = rand_ofmt(r, iv.kind, iv.zone, timeonly && !iv.has_base && go.want_full);
 			iv.fixed.push_back(of);
 		} else if (fk < 68 && iv.kind != K_TIME) {
 			iv.fixed.push_back("-f");
